@@ -107,7 +107,8 @@ class Gen:
             out.append(('Is', IndexOperator(slice(1, None), in_structure=s, out_structure=sl)))
             mask = jnp.asarray(self.rng.integers(0, 2, s.shape).astype(bool)).at[0, 0].set(True)
             out.append(('Pk', PackOperator(mask, s)))
-            out.append(('Bd', BroadcastDiagonalOperator(self.vals(2, s.shape[-1]), axis_destination=-1, in_structure=s)))
+            if s.shape[0] == 2:
+                out.append(('Bd', BroadcastDiagonalOperator(self.vals(2, s.shape[-1]), axis_destination=-1, in_structure=s)))
         if isinstance(s, StokesPyTree):
             out.append(('Lp', LinearPolarizerOperator(s)))
         return out
@@ -209,6 +210,31 @@ def fixed_chains():
     Mv = MoveAxisOperator(0, 1, in_structure=s)
     Mv2 = MoveAxisOperator(1, 0, in_structure=Mv.out_structure())
     out.append(('Mv2,Mv', CompositionOperator([Mv2, Mv])))
+    # nested / sandwiched patterns: an inner pair that cancels completely leaves an outer pair that is reducible too
+    for nm, P in g.rect_pairs(s):
+        if nm in ('Ix', 'Bd'):
+            continue            # not duplicate-free / not a selection: P @ P.T is not rewritten
+        o = P.out_structure()
+        try:
+            last = jax.tree.leaves(o)[0].shape[-1]
+            A = DiagonalOperator(g.vals(last), in_structure=o)
+            A2 = DiagonalOperator(g.vals(last), in_structure=o)
+            out.append((f'A.I,{nm},{nm}.T,A', CompositionOperator([A.I, P, P.T, A])))
+            out.append((f'X,A.I,{nm},{nm}.T,A,X', CompositionOperator([A2, A.I, P, P.T, A, A2])))
+        except Exception:       # noqa: BLE001  (structure on which no diagonal can be laid)
+            pass
+        if isinstance(o, jax.ShapeDtypeStruct) and o.ndim == 2:
+            for nm2, Q in Gen(7).rect_pairs(o):
+                if nm2 in ('Ix', 'Bd'):
+                    continue
+                out.append((f'{nm2},{nm},{nm}.T,{nm2}.T', CompositionOperator([Q, P, P.T, Q.T])))
+    out.append(('Rv,Mv2,Mv,Rv.T', CompositionOperator([RavelOperator(in_structure=s), Mv2, Mv, RavelOperator(in_structure=s).T])))
+    Rr = RavelOperator(in_structure=s)
+    out.append(('Pk2,Rv,Rv.T,Pk2.T', CompositionOperator([
+        PackOperator(jnp.asarray([True, False, True, True, False, True]), Rr.out_structure()), Rr, Rr.T,
+        PackOperator(jnp.asarray([True, False, True, True, False, True]), Rr.out_structure()).T])))
+    Ms = MoveAxisOperator(0, 0, in_structure=st)
+    out.append(('R,Ms,Ms.T,R', CompositionOperator([R1, Ms, Ms.T, R2])))
     A, B2 = DiagonalOperator(g.vals(3), in_structure=s), DiagonalOperator(g.vals(3), in_structure=s)
     bd = BlockDiagonalOperator([A, B2])
     out += [('BD,BD', CompositionOperator([bd, BlockDiagonalOperator([B2, A])])),
